@@ -281,7 +281,8 @@ def run_hs(c):
 def neg_case(draw, tier="quick"):
     d = draw(st.sampled_from([2, 3]))
     form = draw(st.sampled_from(["points", "lines"] if d == 2 else ["points"]))
-    return {"d": d, "form": form, "v": [draw(C.hpoint(d, 6)) for _ in range(4)], "bad": draw(st.integers(2, 3)), "mixed": draw(st.sampled_from([0, 0, 1, 2]))}
+    return {"d": d, "form": form, "v": [draw(C.hpoint(d, 6)) for _ in range(4)], "bad": draw(st.integers(2, 3)), "mixed": draw(st.sampled_from([0, 0, 1, 2])),
+            "dup": draw(st.sampled_from([None, None, None, [0, 1], [0, 2], [0, 3], [1, 2], [1, 3], [2, 3]]))}
 
 
 def run_neg(c):
@@ -294,6 +295,14 @@ def run_neg(c):
     els = [v[0], v[1], third, v[3]] if c["bad"] == 3 else [v[0], v[1], v[3], third]
     if X.rank([v[0], v[1], v[3]]) < 3:
         raise Skip("accidentally collinear")
+    dup = c.get("dup")
+    if dup is not None:
+        # three elements in general position, one of them given twice (by another representative) in the positions dup: still not four
+        # collinear points / concurrent lines
+        if len(dup) != 2 or not 0 <= dup[0] < dup[1] <= 3:
+            raise Skip("malformed")
+        rest = iter([v[0], v[3]])
+        els = [v[1] if k == dup[0] else [-2 * x for x in v[1]] if k == dup[1] else next(rest) for k in range(4)]
     if c["form"] == "points":
         args = [Point(f2(e)) for e in els]
         want = NotCollinear
@@ -357,8 +366,9 @@ LAWS = [
         "four integer points N+o_i of P^1 (|N| up to 1e6, exact determinants): value depends on the offsets only", shard=400),
     Law("harmonic_set", lambda tier: hs_case(tier), run_hs, lambda c: True, lambda c: [f"d{c['d']}", "coll" if c["coll"] else "single"] + (["big-integers"] if c.get("bigint") else []),
         {"quick": 1000, "thorough": 20000}, "harmonic_set(a,b,c) equals the exactly computed harmonic conjugate", shard=400),
-    Law("negative", lambda tier: neg_case(tier), run_neg, lambda c: True, lambda c: [c["form"], f"d{c['d']}"] + (["mixed-collection"] if c.get("mixed") else []), {"quick": 400, "thorough": 6000},
-        "non-collinear points raise NotCollinear, non-concurrent lines raise NotConcurrent", shard=400),
+    Law("negative", lambda tier: neg_case(tier), run_neg, lambda c: True, lambda c: [c["form"], f"d{c['d']}"] + ([f"{c['form']}:one-element-given-twice:positions{c['dup'][0]}{c['dup'][1]}"] if c.get("dup") else []) + (["mixed-collection"] if c.get("mixed") else []), {"quick": 1200, "thorough": 12000},
+        "non-collinear points raise NotCollinear, non-concurrent lines raise NotConcurrent - also when one of three independent elements is given twice, in any two positions", shard=400,
+        mandatory=("lines:one-element-given-twice:positions12", "points:one-element-given-twice:positions12")),
 ]
 
 
